@@ -10,6 +10,7 @@ import (
 	"github.com/pdok/texel/tms20"
 	"verif/engine/ev"
 	"verif/engine/grid"
+	"verif/engine/lat"
 	"verif/engine/ref"
 )
 
@@ -330,7 +331,57 @@ func c02API(r *ev.Run, shardI, shardN int) scopeReport {
 	return rep
 }
 
+// coarsePoints: pixel centres (half-pixel lattice) of every step-th pixel of an n x n arrangement
+func coarsePoints(n int, step int64) []ref.P {
+	var pts []ref.P
+	for j := int64(0); j < int64(n); j++ {
+		for i := int64(0); i < int64(n); i++ {
+			pts = append(pts, ref.P{2*i*step + 1, 2*j*step + 1})
+		}
+	}
+	return pts
+}
+
+// smallHoleShapes: clockwise holes over pixel centres that cannot collapse (three or four distinct, mutually adjacent
+// pixels): the four L-shaped triangles and the 2x2 square, every start vertex (half-pixel lattice units)
+func smallHoleShapes() [][]ref.P {
+	var out [][]ref.P
+	base := [][]ref.P{
+		{{0, 0}, {0, 2}, {2, 0}}, {{0, 0}, {2, 2}, {2, 0}}, {{0, 0}, {0, 2}, {2, 2}}, {{2, 0}, {0, 2}, {2, 2}},
+		{{0, 0}, {0, 2}, {2, 2}, {2, 0}},
+	}
+	for _, b := range base {
+		if ref.Area2(b) > 0 {
+			ev.HarnessError("hole shape %v is not clockwise", b)
+		}
+		out = append(out, rotations(b, allRot(len(b)))...)
+	}
+	return out
+}
+
+// scopesC02: the common valid scopes plus large non-collapsing shells with small holes anywhere inside (the second
+// sentence of the property: nothing collapses, so the result must be exactly the routed rings - hole matching, ring
+// order and orientation are then visible as plain inequality)
+func scopesC02(thorough bool) []Scope {
+	scs := scopesValid(thorough)
+	var offs []ref.P
+	for j := int64(0); j < 10; j++ {
+		for i := int64(0); i < 10; i++ {
+			offs = append(offs, ref.P{2*i + 1, 2*j + 1})
+		}
+	}
+	scs = append(scs, Scope{Name: "L-coarse-shell-small-holes", GS: synthGS(0, 2, [2]int64{2, 3}),
+		Spec:   lat.Spec{Points: coarsePoints(3, 5), MaxK: 5, Valid: true, MaxHoles: 1, HoleShapes: smallHoleShapes(), HoleOffsets: offs},
+		IDSets: [][]int{{0}}, Cfgs: keepCfgs})
+	if thorough {
+		scs = append(scs, Scope{Name: "L-coarse4-shell-small-holes", GS: synthGS(0, 2, [2]int64{3, 2}),
+			Spec:   lat.Spec{Points: coarsePoints(4, 3), MaxK: 4, Valid: true, MaxHoles: 2, HoleShapes: smallHoleShapes()[:4], HoleOffsets: offs},
+			IDSets: [][]int{{0}}, Cfgs: keepCfgs})
+	}
+	return scs
+}
+
 func init() {
-	register(&Prop{ID: "C02", Scopes: scopesValid, Judge: judgeC02Poly, Extras: []func(*ev.Run, int, int) scopeReport{c02API},
+	register(&Prop{ID: "C02", Scopes: scopesC02, Judge: judgeC02Poly, Extras: []func(*ev.Run, int, int) scopeReport{c02API},
 		Rule: "(1) API level: every non-empty set of occupied pixels of a small window x every ordered pair of distinct quarter-pixel lattice points lying in occupied pixels, routed by the real PointIndex.SnapClosestPoints at several index depths / requested levels / placements and compared with the exact half-open-pixel reference router (states = index configurations, transitions = segments routed; non-trivial = reference route has an inserted centre); (2) every valid lattice polygon whose reference-routed boundary visits each centre at most once must come back as exactly the routed chains (non-trivial = a centre was inserted)"})
 }
